@@ -23,6 +23,7 @@ property statement).
 from __future__ import annotations
 
 import asyncio
+import hashlib
 import ipaddress
 import itertools
 import multiprocessing
@@ -1758,6 +1759,339 @@ def vm_crosscheck(ctx, sample):
     return len(sample), bad
 
 
+
+# ================================================================ encrypted notifications through the scanner callback
+# BleController._device_detected hands manufacturer data of type 0x11 to BlePairing._async_notification with
+# no exception guard.  World: one live BleController with five loaded pairings (and one id without pairing);
+# notifications are sealed with `cryptography` (ref/bcast_ref.py, shares no AEAD code with aiohomekit).
+N_DEVS = [bytes.fromhex("aabbcc0000%02x" % i) for i in range(1, 7)]
+N_KEYS = {i: hashlib.sha256(b"c19-bcast-%d" % i).digest() for i in (1, 2, 4, 9)}
+N_DB = [(9, "bool"), (10, "uint8"), (11, "uint16"), (12, "uint32"), (13, "uint64"), (14, "int"), (15, "float"),
+        (16, "string"), (17, "tlv8"), (18, "data")]
+N_FMT = {"bool": "bool", "uint8": "u8", "uint16": "u16", "uint32": "u32", "uint64": "u64", "int": "int", "float": "float",
+         "string": "string", "tlv8": "other", "data": "other"}
+# name -> (device index, key id or None, initial state number or None, "full" | "noaid" | None)
+N_WORLD = [("P1", 0, 1, 5, "full"),      # usable pairing
+           ("P2", 1, 2, 5, "noaid"),     # key and description, but the cached accessory list has no aid 1
+           ("P3", 2, None, 5, "full"),   # no broadcast key
+           ("P4", 3, 4, None, "full"),   # key, but never seen an advertisement: no description
+           ("P5", 4, None, None, None)]  # loaded without any cache
+
+
+def n_idstr(dev):
+    return ":".join("%02x" % b for b in dev)
+
+
+def n_accessories(kind):
+    if kind == "noaid":        # a cached database whose only accessory is not aid 1
+        return [dict(aid=2, services=[dict(iid=1, type="0000003E-0000-1000-8000-0026BB765291", characteristics=[
+            dict(iid=2, type="00000023-0000-1000-8000-0026BB765291", perms=["pr"], format="string")])])]
+    chars = [dict(iid=i, type="00000025-0000-1000-8000-0026BB765291", perms=["pr", "ev"], format=f) for i, f in N_DB]
+    return [dict(aid=1, services=[
+        dict(iid=1, type="0000003E-0000-1000-8000-0026BB765291", characteristics=[
+            dict(iid=2, type="00000023-0000-1000-8000-0026BB765291", perms=["pr"], format="string")]),
+        dict(iid=8, type="00000043-0000-1000-8000-0026BB765291", characteristics=chars)])]
+
+
+def n_model_pairs():
+    out = []
+    for _, d, key, sn, db in N_WORLD:
+        dbs = "none" if db in (None, "noaid") else ",".join(f"{i}={N_FMT[f]}" for i, f in [(2, "string")] + N_DB)
+        out.append(f"{hx(n_idstr(N_DEVS[d]).encode())}:{1 if key else 0}:{'none' if sn is None else sn}:{dbs}")
+    return ";".join(out)
+
+
+def n_realise(ev, ref_sn):
+    """event -> (manufacturer data or None, opens for the model, class label).  ref_sn: reference state numbers
+    (only used to place relative state numbers; updated by n_ref_step)"""
+    from ref import bcast_ref as R
+    if ev[0] == "P":                       # plain type-0x06 advertisement for device d with state number sn
+        _, d, sn = ev
+        return (bytes([0x06, 0x31, 0x00]) + N_DEVS[d] + (5).to_bytes(2, "little") + (sn & 0xFFFF).to_bytes(2, "little")
+                + bytes([1, 2]) + b"\x01\x02\x03\x04"), [], "plain"
+    if ev[0] == "R":
+        return ev[1], [], "raw"
+    _, d, key, rel, inner_rel, iid, value, mod, label = ev
+    base = ref_sn.get(d)
+    base = 5 if base is None else base
+    n = base + rel
+    inner = n if inner_rel is None else base + inner_rel
+    pt = R.plaintext(inner, iid, value)
+    payload = bytearray(R.seal(N_KEYS[key], n, N_DEVS[d], pt))
+    intact = True
+    if mod == "flip":
+        payload[len(payload) // 2] ^= 0x10
+        intact = False
+    elif mod == "trunc":
+        payload = payload[:-3]
+        intact = False
+    owner_key = next((k for _, dd, k, _, _ in N_WORLD if dd == d), None)
+    opens = [(n, pt)] if (intact and owner_key == key) else []
+    return bytes([0x11, 0x36]) + N_DEVS[d] + bytes(payload), opens, label
+
+
+def n_ref_step(ev, opens, ref_sn):
+    """reference bookkeeping of description.state_num (to place the next relative state numbers)"""
+    if ev[0] == "P":
+        if any(dd == ev[1] for _, dd, _, _, _ in N_WORLD):
+            ref_sn[ev[1]] = ev[2] & 0xFFFF
+    elif ev[0] == "N" and opens:
+        d = ev[1]
+        cur = ref_sn.get(d)
+        n, pt = opens[0]
+        if cur is not None and cur < n < cur + 100 and int.from_bytes(pt[0:2], "little") == n:
+            ref_sn[d] = n
+
+
+async def n_exec(loop, history):
+    """one live controller, the whole history through the registered detection callback"""
+    from aiohomekit.characteristic_cache import CharacteristicCacheMemory
+    from aiohomekit.controller.ble.controller import BleController
+    from bleak.backends.device import BLEDevice
+    from bleak.backends.scanner import AdvertisementData
+    cache = CharacteristicCacheMemory()
+    for _, d, key, sn, db in N_WORLD:
+        if db is not None:
+            cache.async_create_or_update_map(n_idstr(N_DEVS[d]), 1, n_accessories(db), N_KEYS[key].hex() if key else None, sn)
+    ctl = BleController(cache)
+    await ctl.async_start()
+    calls, fallbacks, pairings = [], [0], []
+    for name, d, _, _, _ in N_WORLD:
+        p = ctl.load_pairing(name, {"AccessoryPairingID": n_idstr(N_DEVS[d]), "AccessoryAddress": n_idstr(N_DEVS[d]).upper(),
+                                    "Connection": "BLE"})
+        p.dispatcher_connect(lambda e, name=name: calls.append((name, e)))
+        orig = p._process_disconnected_events
+
+        def spy(orig=orig):
+            fallbacks[0] += 1
+            return orig()
+        p._process_disconnected_events = spy
+        pairings.append(p)
+    ref_sn = {d: sn for _, d, _, sn, _ in N_WORLD}
+    out, models = [], []
+    for ev in history:
+        data, opens, label = n_realise(ev, ref_sn)
+        dev = BLEDevice(address="00:11:22:33:44:99", name="acc", details=None)
+        ad = AdvertisementData(local_name="acc", manufacturer_data={} if data is None else {76: data}, service_data={},
+                               service_uuids=[], rssi=-60, platform_data=((),), tx_power=-127)
+        c0, f0, nerr = len(calls), fallbacks[0], len(loop.errors)
+        raised = ""
+        try:
+            ctl._scanner.cb(dev, ad)
+        except Exception as e:  # noqa
+            raised = type(e).__name__
+        await settle(loop)
+        for ctx in loop.errors[nerr:]:
+            raised = raised or "loop-" + type(ctx.get("exception")).__name__
+        iids = ",".join(str(k[1]) for _, e in calls[c0:] for k in e) or "-"
+        sns = ",".join("none" if p.description is None else str(int(p.description.state_num)) for p in pairings)
+        models.append(("none" if data is None else hx(data)) + "~" + (",".join(f"{n}={hx(pt)}" for n, pt in opens) or "."))
+        n_ref_step(ev, opens, ref_sn)
+        refs = ",".join("none" if ref_sn.get(d) is None else str(ref_sn[d]) for _, d, _, _, _ in N_WORLD)
+        out.append(f"{iids}/{1 if fallbacks[0] > f0 else 0}/{raised or '-'}/{sns}/{refs}")
+    for p in pairings:
+        try:
+            await p.shutdown()
+        except Exception:  # noqa
+            pass
+    await ctl.async_stop()
+    await settle(loop)
+    return out, models
+
+
+def n_model_canon(cell):
+    """driver cell  <result>/<raised>/<sns>  ->  <listener iids>/<fallback>/<raised>/<sns>"""
+    r, ra, sns = cell.split("/")
+    iid = r.split(":")[1] if r.startswith("deliv:") else "-"
+    fb = 1 if (r in ("nokey", "undec") or r.startswith("poll:")) else 0
+    return f"{iid}/{fb}/{'raised' if ra == '1' else '-'}/{sns}", r
+
+
+V8 = b"\x01\x02\x00\x00\x00\x00\x00\x00"
+
+
+def n_templates():
+    """event templates, state numbers relative to the target's current one"""
+    T = []
+    N = lambda d, key, rel, inner, iid, value, mod, label: ("N", d, key, rel, inner, iid, value, mod, label)   # noqa
+    T += [N(0, 1, 1, None, 11, V8, None, "authentic-decodable"),
+          N(0, 1, 1, None, 99, V8, None, "authentic-unknown-iid"),
+          N(0, 1, 2, None, 13, b"\x01\x02", None, "authentic-short-value"),
+          N(0, 1, 1, None, 16, b"\xff\xfe" + bytes(6), None, "authentic-bad-utf8"),
+          N(0, 1, 1, None, 16, "héllo".encode() + b"!!", None, "authentic-string"),
+          N(0, 1, 0, None, 11, V8, None, "stale"),
+          N(0, 1, 3, 1, 11, V8, None, "inner-mismatch"),
+          N(0, 1, 99, None, 12, V8, None, "window-edge"),
+          N(0, 1, 100, None, 12, V8, None, "out-of-window"),
+          N(0, 2, 1, None, 11, V8, None, "wrong-key"),
+          N(0, 1, 1, None, 11, V8, "flip", "bit-flip"),
+          N(0, 1, 1, None, 11, V8, "trunc", "truncated"),
+          N(1, 2, 1, None, 11, V8, None, "authentic-no-accessory"),
+          N(2, 1, 1, None, 11, V8, None, "pairing-without-key"),
+          N(3, 4, 1, None, 11, V8, None, "pairing-without-description"),
+          N(4, 1, 1, None, 11, V8, None, "pairing-without-cache"),
+          N(5, 1, 1, None, 11, V8, None, "no-pairing"),
+          ("P", 0, 40), ("P", 3, 7), ("P", 1, 2), ("R", b"\x11\x36" + N_DEVS[0][:3]), ("R", b"\x11"), ("R", None)]
+    return T
+
+
+def gen_notif(tier, r):
+    T = n_templates()
+    hist = [[t] for t in T]
+    cheap = [t for t in T if t[0] != "N" or t[-1] in ("authentic-decodable", "authentic-unknown-iid", "authentic-short-value",
+                                                    "authentic-bad-utf8", "authentic-string", "stale", "window-edge",
+                                                    "authentic-no-accessory", "pairing-without-key", "pairing-without-description")]
+    for a in cheap:
+        for b in T:
+            hist.append([a, b])
+    if tier != "quick":
+        for a in cheap:
+            for b in cheap:
+                for c in T:
+                    hist.append([a, b, c])
+    # every format x every value length 0..8, valid and invalid strings
+    for iid, f in N_DB:
+        for ln in range(0, 9):
+            hist.append([("N", 0, 1, 1, None, iid, bytes(range(65, 65 + ln)), None, f"format-{f}-len{ln}")])
+    samples = [b"\xc3\xa9", b"\xe2\x82\xac", b"\xf0\x9f\x98\x80", b"\xc3", b"\xe2\x82", b"\xed\xa0\x80", b"\xc0\x80", b"\xf4\x90\x80\x80",
+               b"\x80", b"ab\xffcd", b"\xe0\x9f\x80", b"\xf0\x8f\x80\x80", b"\x00\x00", b"\x7f"]
+    for _ in range(60 if tier == "quick" else 1500):
+        samples.append(bytes(r.choice([r.randrange(256), r.randrange(0x80, 0xC0), r.randrange(0xC0, 0xF8), 0x41])
+                             for _ in range(r.randrange(0, 9))))
+    for v in samples:
+        hist.append([("N", 0, 1, 1, None, 16, v[:8], None, "string-sample")])
+    # longer random histories on the one live controller
+    for _ in range(40 if tier == "quick" else 1500):
+        hist.append([r.choice(cheap if r.random() < 0.8 else T) for _ in range(r.randrange(3, 9))])
+    return hist
+
+
+def n_job(job):
+    hists, exe = job
+    res = []
+    import logging
+    logging.disable(logging.CRITICAL)
+    with Patches():
+        for i in range(0, len(hists), 100):
+            part = hists[i:i + 100]
+
+            async def main(loop, part=part):
+                for h in part:
+                    res.append(await n_exec(loop, h))
+            vloop.run(main)
+    drv = Driver(exe, workers=1)
+    pairs = n_model_pairs()
+    ans = drv._run([f"nseq 1 {pairs} " + " ".join(m) for _, m in res])
+    return [(o, m, a) for (o, m), a in zip(res, ans)]
+
+
+def utf8_cases(tier, r):
+    cases = [bytes([a]) for a in range(256)] + [bytes([a, b]) for a in range(256) for b in range(256)]
+    edge = [0x00, 0x7F, 0x80, 0x8F, 0x90, 0x9F, 0xA0, 0xBF, 0xC0, 0xC1, 0xC2, 0xDF, 0xE0, 0xE1, 0xEC, 0xED, 0xEE, 0xEF, 0xF0, 0xF1,
+            0xF3, 0xF4, 0xF5, 0xFF]
+    for t in itertools.product(edge, repeat=3):
+        cases.append(bytes(t))
+    lead4 = [0xF0, 0xF1, 0xF4, 0xF5, 0xE0, 0xED]
+    for a in lead4:
+        for t in itertools.product([0x7F, 0x80, 0x8F, 0x90, 0x9F, 0xA0, 0xBF, 0xC0], repeat=3):
+            cases.append(bytes((a,) + t))
+    for _ in range(3000 if tier == "quick" else 100000):
+        cases.append(bytes(r.choice([r.randrange(256), r.randrange(0x80, 0xC0), r.randrange(0xC2, 0xF5), 0x41])
+                           for _ in range(r.randrange(3, 9))))
+    return cases
+
+
+def run_notif_stream(ctx, cov, viols, timing):
+    tier, seed, exe = ctx["tier"], ctx["seed"], ctx["driver"]
+    t0 = time.time()
+    # the model's UTF-8 validity test against CPython's strict decoder
+    drv = Driver(exe)
+    cases = utf8_cases(tier, rng(seed, "c19utf8"))
+    ans = drv.batch(["utf8 " + hx(c) for c in cases])
+    bad = 0
+    for c, a in zip(cases, ans):
+        try:
+            c.decode("utf-8")
+            want = "1"
+        except UnicodeDecodeError:
+            want = "0"
+        if a != want:
+            bad += 1
+            if bad == 1:
+                viols.append(violation("notif:utf8-model-mismatch", f"utf8_ok({hx(c)}) = {a}, CPython says {want}", False,
+                                       stream="notif", case=hx(c), broken="Model/Find.v utf8_ok <-> bytes.decode('utf-8')"))
+    cov.evaluations += len(cases)
+    cov.hist["notif_utf8"]["cases"] += len(cases)
+    # histories
+    hists = gen_notif(tier, rng(seed, "c19notif"))
+    nw = min(WORKERS, 8)
+    chunks = [hists[i::nw] for i in range(nw)]
+    with multiprocessing.get_context("fork").Pool(nw) as pool:
+        results = [x for part in pool.map(n_job, [(c, exe) for c in chunks]) for x in part]
+    order = [h for c in chunks for h in c]
+    seen = set()
+    for h, (out, models, a) in sorted(zip(order, results), key=lambda x: len(x[0])):
+        cells = a.split(" ")
+        labels = [(ev[-1] if ev[0] == "N" else {"P": "plain", "R": "raw"}[ev[0]]) for ev in h]
+        for j, (o, cell) in enumerate(zip(out, cells)):
+            mc, mres = n_model_canon(cell)
+            iids, fb, raised, sns, refs = o.split("/")
+            cls = labels[j]
+            if cls.startswith("format-"):
+                cls = "value-length"
+            elif cls == "string-sample":
+                cls = "string-bytes"
+            if h[j][0] != "N":          # the poll a plain advertisement may start is not part of this comparison
+                fb = "*"
+                mc = mc.split("/")[0] + "/*/" + "/".join(mc.split("/")[2:])
+            impl_c = f"{iids}/{fb}/{'raised' if raised != '-' else '-'}/{sns}"
+            cov.case("nt" + repr(h[:j + 1]), True,
+                     sample=dict(stream="notif", history=[_n_repr(e) for e in h[:j + 1]], impl=o, model=cell) if cov.evaluations % 401 == 0 else None,
+                     notif_class=labels[j], notif_model_result=mres.split(":")[0], notif_raised=raised, notif_hist_len=len(h))
+            key = None
+            if raised != "-":
+                key, what, found = (f"notif:callback-raised:{raised}:{cls}",
+                                    f"ble: the scanner callback raised {raised} on an encrypted notification ({labels[j]}) "
+                                    f"at step {j} of the history", True)
+            elif sns != refs:
+                # reference bookkeeping: an authentic, fresh notification advances the stored state number (its replays
+                # must stay ignored), a plain advertisement sets it, nothing else touches it
+                key, what, found = (f"notif:state-number:{cls}",
+                                    f"ble notification ({labels[j]}): state numbers must be {refs} but are {sns}", True)
+            elif impl_c != mc:
+                key, what, found = ("notif:model-mismatch", f"ble notification: implementation {impl_c} != model {mc} ({labels[j]})", False)
+            if key:
+                cov.extra["disagreements_checked"] = cov.extra.get("disagreements_checked", 0) + 1
+                if key not in seen:
+                    seen.add(key)
+                    viols.append(violation(key, what, found, stream="notif", history=[_n_repr(e) for e in h[:j + 1]],
+                                           manufacturer_data=[m.split("~")[0] for m in models[:j + 1]], impl=out[:j + 1],
+                                           model=cells[:j + 1], world=[w[0] + ":" + n_idstr(N_DEVS[w[1]]) for w in N_WORLD]))
+                break
+    timing["notif_wall"] = round(time.time() - t0, 1)
+    cov.extra["notif_histories"] = len(hists)
+
+
+def _n_repr(ev):
+    return [x.hex() if isinstance(x, (bytes, bytearray)) else x for x in ev]
+
+
+def n_replay(v):
+    def back(e):
+        if e[0] == "N":
+            return ("N", e[1], e[2], e[3], e[4], e[5], bytes.fromhex(e[6]), e[7], e[8])
+        if e[0] == "R":
+            return ("R", None if e[1] is None else bytes.fromhex(e[1]))
+        return tuple(e)
+    h = [back(e) for e in v["history"]]
+    res = []
+    with Patches():
+        async def main(loop):
+            res.append(await n_exec(loop, h))
+        vloop.run(main)
+    return h, res[0]
+
+
 # ================================================================ run
 def run(ctx):
     cov = Coverage("sched: distinct schedule with at least one waiting caller; extra/callback: distinct directed schedule; "
@@ -1773,6 +2107,7 @@ def run(ctx):
     run_extra_stream(ctx, cov, viols)
     run_callback_stream(ctx, cov, viols)
     timing["extra_callback_wall"] = round(time.time() - t1, 1)
+    run_notif_stream(ctx, cov, viols, timing)
     run_sched_stream(ctx, cov, viols, timing)
     for k in ("sched_impl_cpu", "sched_model_cpu"):
         timing[k] = round(timing.get(k, 0), 1)
@@ -1834,6 +2169,15 @@ def replay(ctx):
             cov.case(repr(evs), True, sample=dict(events=v["events"], impl=i, model=m, endpoints=ee[0]))
             for key, what, found in classify(kind, evs, i, m, ee[0]):
                 viols.append(violation(key, what, found, stream="sched", kind=kind, events=v["events"], impl=i, model=m))
+    elif v.get("stream") == "notif" and v.get("history"):
+        h, (out, models) = n_replay(v)
+        cov.case(repr(v["history"]), True, sample=dict(history=v["history"], impl=out))
+        for j, o in enumerate(out):
+            raised, sns, refs = o.split("/")[2:5]
+            if raised != "-" or sns != refs:
+                viols.append(violation(v["key"], f"ble: the scanner callback raised {raised} / state numbers {sns} (want {refs}) at step {j}",
+                                       True, stream="notif", history=v["history"], impl=out))
+                break
     elif v.get("stream") == "parse":
         which, case = v["parser"], v["case"]
         if which == "ble-advertisement":
